@@ -80,9 +80,35 @@ impl CliRun {
 }
 
 pub fn run_cli(dir: &Path, args: &[&str]) -> CliRun {
+    run_cli_styled(dir, args, 0)
+}
+
+pub const CLI_STYLES: usize = 5;
+
+/// The same command started in another way: the project is the one whose `graphql.config.yaml` lies in `dir`.
+/// 0: from `dir`, configuration file discovered; 1: from `dir` with `--config-file ./graphql.config.yaml`;
+/// 2: from the parent directory with `--config-file <dir>/graphql.config.yaml`; 3: from `dir` with a path that
+/// leaves and re-enters it (`../<dir>/graphql.config.yaml`); 4: from the parent directory with a detour
+/// (`./<dir>/../<dir>/graphql.config.yaml`). Nothing is created or changed on disk.
+pub fn run_cli_styled(dir: &Path, args: &[&str], style: usize) -> CliRun {
+    let name = dir.file_name().map(|n| n.to_string_lossy().into_owned()).unwrap_or_default();
+    let parent = dir.parent().unwrap_or(dir).to_path_buf();
+    let (cwd, cfg): (PathBuf, Option<String>) = match style % CLI_STYLES {
+        1 => (dir.to_path_buf(), Some("./graphql.config.yaml".into())),
+        2 if !name.is_empty() => (parent, Some(format!("{name}/graphql.config.yaml"))),
+        3 if !name.is_empty() => (dir.to_path_buf(), Some(format!("../{name}/graphql.config.yaml"))),
+        4 if !name.is_empty() => (parent, Some(format!("./{name}/../{name}/graphql.config.yaml"))),
+        _ => (dir.to_path_buf(), None),
+    };
+    let mut all: Vec<String> = vec![];
+    if let Some(c) = cfg {
+        all.push("--config-file".into());
+        all.push(c);
+    }
+    all.extend(args.iter().map(|a| a.to_string()));
     let out = Command::new(CLI_BIN)
-        .args(args)
-        .current_dir(dir)
+        .args(&all)
+        .current_dir(cwd)
         .env("NO_COLOR", "1")
         .env_remove("RUST_LOG")
         .stdin(Stdio::null())
